@@ -1,1 +1,197 @@
-(* C19 - to be filled *)
+(* C19 - Generation never crashes: reading a document and generating every output returns either
+   success or an error value.  In the model the only stand-in for a panic / stack overflow is the
+   error [ECrash], produced when the recursion bound of emit_sff is reached; everything else is a
+   total function by construction.  Only statements, each closed by [exact]; see Proofs/C19.v. *)
+From Slinky Require Import Model.Types Model.Parse Model.Runtime Model.Style Model.Script Model.Writer
+  Model.Exports.
+From Slinky Require Import Spec.C14 Proofs.C14 Spec.C19 Proofs.C19.
+
+(* the recursion bound given at the top of every chain of sub-group expansions is never exhausted:
+   all files (any nesting of groups), all segments (any sections_subgroups, cyclic or not), all
+   sections, options and writer configurations *)
+Theorem C19_fuel_sufficient : forall rt sty cfg seg sections f section base ws w,
+  emit_sff rt sty cfg seg sections f (chain_fuel seg) [] section base ws <> Err (ECrash w).
+Proof. exact fuel_sufficient. Qed.
+
+(* the invariant behind it, for any point of a chain: distinct sections on the stack, all in the
+   universe except possibly the one the chain started from, and enough fuel for the rest *)
+Theorem C19_chain_invariant : forall rt sty cfg seg sections f s0,
+  Forall (top_errs rt sty cfg seg sections gen_error) (fi_files f) ->
+  forall n stack section base ws,
+    NoDup stack -> incl stack (s0 :: chain_universe seg) -> In section (s0 :: chain_universe seg) ->
+    2 + List.length (chain_universe seg) <= n + List.length stack ->
+    errs gen_error (emit_sff rt sty cfg seg sections f n stack section base ws).
+Proof. exact chain_invariant. Qed.
+
+(* generation of the ordinary and of the partial scripts, for ALL documents (parsed or not) and
+   all run-time settings, and parsing of all serial documents: never the crash value *)
+Theorem C19_no_crash_normal : forall d rt w, gen_normal d rt <> Err (ECrash w).
+Proof. exact gen_normal_no_crash. Qed.
+
+Theorem C19_no_crash_partial : forall d rt w, gen_partial d rt <> Err (ECrash w).
+Proof. exact gen_partial_no_crash. Qed.
+
+Theorem C19_no_crash_parse : forall sd w, parse sd <> Err (ECrash w).
+Proof. exact parse_no_crash. Qed.
+
+(* the command-line tool is a total function into its result type *)
+Theorem C19_cli_total : forall sd a, exists ok out writes, cli_run sd a = CliResult ok out writes.
+Proof. exact cli_run_total. Qed.
+
+(* the errors of generation are values of four kinds (five for the partial writer) *)
+Theorem C19_errors_are_values : forall d rt e, gen_normal d rt = Err e -> gen_error e.
+Proof. exact gen_normal_errs. Qed.
+
+Theorem C19_errors_are_values_partial : forall d rt e, gen_partial d rt = Err e -> gen_partial_error e.
+Proof. exact gen_partial_errs. Qed.
+
+Theorem C19_escape_path_errors : forall rt p e,
+  escape_path rt p = Err e -> exists path key, e = ECustomOptionNotProvided path key.
+Proof. exact escape_path_opt. Qed.
+
+(* the repaired defect: a section that is a member of its own sub-group.  The entry is never
+   generated ... *)
+Theorem C19_cycle_never_ok : forall rt sty cfg seg sections f n stack s others base ws,
+  reference_partial cfg = false ->
+  In s (sections_here f s sections) ->
+  lookup s (sections_subgroups seg) = Some others -> In s others ->
+  forall o, emit_sff rt sty cfg seg sections f n stack s base ws <> Ok o.
+Proof. exact self_cycle_never_ok. Qed.
+
+(* ... and the value returned is the cycle error when nothing fails before the cycle is met *)
+Theorem C19_cycle_detected_general : forall rt sty cfg seg sections f n stack s rest base ws,
+  reference_partial cfg = false ->
+  fi_section_order f = [] ->
+  lookup s (sections_subgroups seg) = Some (s :: rest) ->
+  mem_str s stack = false ->
+  (exists o, emit_file_of rt sty cfg seg sections f base s ws = Ok o) ->
+  emit_sff rt sty cfg seg sections f (S (S n)) stack s base ws = Err (ESubgroupCycle (sg_name seg) s).
+Proof. exact self_cycle_detected. Qed.
+
+Theorem C19_cycle_detected : forall rt sty cfg seg sections f s base ws p,
+  reference_partial cfg = false ->
+  sections_subgroups seg = [(s, [s])] ->
+  should_emit rt (fi_conds f) = true -> fi_kind f = KObject -> fi_section_order f = [] ->
+  escape_path rt (fi_path f) = Ok p ->
+  emit_sff rt sty cfg seg sections f (chain_fuel seg) [] s base ws =
+  Err (ESubgroupCycle (sg_name seg) s).
+Proof. exact cycle_detected_object. Qed.
+
+(* when every edge of the expansion graph (for this entry and the entries below it) goes down a
+   rank, no cycle error is produced *)
+Theorem C19_acyclic_no_cycle_error : forall rt sty cfg seg sections rank f,
+  chain_decreasing_deep seg sections rank f ->
+  forall section base ws s c,
+    emit_sff rt sty cfg seg sections f (chain_fuel seg) [] section base ws <> Err (ESubgroupCycle s c).
+Proof. exact acyclic_no_cycle. Qed.
+
+(* the rendered text of any statement list is well bracketed: blocks are a header line, "{" on its
+   own line, the body one level deeper, "}" on its own line, and no other line is a lone brace *)
+Theorem C19_balanced : forall l, blocks 0 (render l).
+Proof. exact render_blocks. Qed.
+
+Theorem C19_balanced_stmt : forall s ind r, blocks ind r -> blocks ind (render_stmt ind s ++ r).
+Proof. exact render_stmt_blocks. Qed.
+
+(* ... hence a reader counting lone braces ends at depth 0 and never closes an unopened block *)
+Theorem C19_balanced_count : forall l, depth_after 0 (render l) = Some 0.
+Proof. exact render_depth. Qed.
+
+(* capitalize (repaired to be safe on character boundaries) returns a string for every input, the
+   empty one and a non-ASCII first byte included: the tail is kept as it is *)
+Theorem C19_capitalize_empty : capitalize "" = ""%string.
+Proof. exact capitalize_empty. Qed.
+
+Theorem C19_capitalize_total : forall c r, capitalize (String c r) = String (upper_ascii c) r.
+Proof. exact capitalize_cons. Qed.
+
+Theorem C19_capitalize_length : forall s, String.length (capitalize s) = String.length s.
+Proof. exact capitalize_length. Qed.
+
+(* ---------- examples: the three repaired crash inputs, through parse and the generators ---------- *)
+
+Example C19_ex_cycle_direct :
+  ex19_normal ex19_cyclic_direct = Some (ESubgroupCycle "boot" ".text") /\
+  ex19_partial ex19_cyclic_direct = Some (ESubgroupCycle "boot" ".text").
+Proof. vm_compute. split; reflexivity. Qed.
+
+(* a cycle of length three, met inside a group *)
+Example C19_ex_cycle_indirect :
+  ex19_normal ex19_cyclic_indirect = Some (ESubgroupCycle "boot" ".text").
+Proof. vm_compute. reflexivity. Qed.
+
+(* the hypotheses of C19_cycle_detected on the parsed first example *)
+Example C19_ex_cycle_hyps :
+  match parse ex19_cyclic_direct with
+  | Ok d => match doc_segments d with
+            | [seg] => match sg_files seg with
+                       | [f] => sections_subgroups seg = [(".text", [".text"])] /\
+                                should_emit ex19_rt (fi_conds f) = true /\ fi_kind f = KObject /\
+                                fi_section_order f = [] /\ escape_path ex19_rt (fi_path f) = Ok "a.o"%string
+                       | _ => False
+                       end
+            | _ => False
+            end
+  | Err _ => False
+  end.
+Proof. vm_compute. repeat split; reflexivity. Qed.
+
+Example C19_ex_two_segments_single_mode :
+  ex19_normal ex19_two_single = Some (EInvalidSegmentCount 2).
+Proof. vm_compute. reflexivity. Qed.
+
+Example C19_ex_makerom_non_ascii :
+  ex19_normal ex19_makerom = None /\ ex19_partial ex19_makerom = None /\
+  convert_section_name Makerom ex19_nonascii_section =
+    String (ascii_of_nat 195) (String (ascii_of_nat 169) "tat") /\
+  convert_section_name Makerom "." = ""%string /\ convert_section_name Makerom "" = ""%string.
+Proof. vm_compute. repeat split; reflexivity. Qed.
+
+(* three levels of sub-groups without a cycle: generation succeeds and emits every level, in depth-
+   first order; the ranks 2, 1, 0 witness the hypothesis of C19_acyclic_no_cycle_error *)
+Example C19_ex_acyclic :
+  ex19_normal ex19_acyclic = None /\
+  filter (fun s => negb (is_empty s))
+         (match parse ex19_acyclic with
+          | Ok d => match gen_normal d ex19_rt with
+                    | Ok w => input_lines (wo_script w)
+                    | Err _ => []
+                    end
+          | Err _ => []
+          end) =
+  ["a.o(.text*);"; "a.o(.text.hot*);"; "a.o(.text.hot.inner*);"; "a.o(.text.cold*);";
+   "a.o(.data*);"; "a.o(.rodata*);"; "a.o(.sdata*);"; "a.o(.sbss*);"; "a.o(.scommon*);";
+   "a.o(.bss*);"; "a.o(COMMON*);"]%string.
+Proof. vm_compute. split; reflexivity. Qed.
+
+Example C19_ex_acyclic_hyps : forall f,
+  fi_section_order f = [] ->
+  chain_decreasing (Segment "boot" [] None None None None "" None no_conds [".text"] [] None None None
+                            None None [] [] true None ex19_acyclic_subgroups KAbsent)
+                   [".text"] ex19_rank f.
+Proof. exact ex19_acyclic_decreasing. Qed.
+
+(* the brace count of a generated script *)
+Example C19_ex_balanced :
+  depth_after 0 (ex19_lines ex19_acyclic) = Some 0 /\ 20 < List.length (ex19_lines ex19_acyclic).
+Proof. vm_compute. split; [reflexivity | repeat constructor]. Qed.
+
+Print Assumptions C19_fuel_sufficient.
+Print Assumptions C19_chain_invariant.
+Print Assumptions C19_no_crash_normal.
+Print Assumptions C19_no_crash_partial.
+Print Assumptions C19_no_crash_parse.
+Print Assumptions C19_cli_total.
+Print Assumptions C19_errors_are_values.
+Print Assumptions C19_errors_are_values_partial.
+Print Assumptions C19_escape_path_errors.
+Print Assumptions C19_cycle_never_ok.
+Print Assumptions C19_cycle_detected_general.
+Print Assumptions C19_cycle_detected.
+Print Assumptions C19_acyclic_no_cycle_error.
+Print Assumptions C19_balanced.
+Print Assumptions C19_balanced_stmt.
+Print Assumptions C19_balanced_count.
+Print Assumptions C19_capitalize_empty.
+Print Assumptions C19_capitalize_total.
+Print Assumptions C19_capitalize_length.
